@@ -124,11 +124,12 @@ def has_kind(t, prefix):
 
 
 # ------------------------------------------------------------------------------------------------ signatures
-def nested_instance_sig(names, reqs, spec_canon):
-    """two contributors of one track share an export that is an instance on both sides, with different trees"""
+def nested_instance_sig(names, reqs, spec_canon, any_pair=False):
+    """two contributors of one track (of any two tracks when an interface is shared across import names) share an
+    export that is an instance on both sides, with different trees"""
     for a in range(len(reqs)):
         for b in range(a + 1, len(reqs)):
-            if spec_canon[a] != spec_canon[b]:
+            if spec_canon[a] != spec_canon[b] and not any_pair:
                 continue
             if differing_nested(reqs[a], reqs[b], 0):
                 return True
@@ -171,17 +172,19 @@ def alias_prim_sig(case_fields):
         for j in range(ne):
             en, ek = toks[p + 1 + 2 * j], toks[p + 2 + 2 * j]
             shape = ek
-            if ek.startswith("tv:d"):
-                dd = arenas["D"][int(ek[4:])].split(" ")
-                shape = "tv:alias(" + dd[2] + ")" if dd[1] == "alias" else "tv:defined"
+            for pre in ("tv:", "v:"):
+                if ek.startswith(pre + "d"):
+                    dd = arenas["D"][int(ek[len(pre) + 1:])].split(" ")
+                    shape = pre + "alias(" + dd[2] + ")" if dd[1] == "alias" else pre + "defined"
             e[en] = shape
         exports.append(e)
     for a in range(len(exports)):
         for b in range(len(exports)):
             for en, sa in exports[a].items():
                 sb = exports[b].get(en)
-                if sb and sa.startswith("tv:alias(p") and sb == "tv:" + sa[9:-1]:
-                    return True
+                for pre in ("tv:", "v:"):
+                    if sb and sa.startswith(pre + "alias(p") and sb == pre + sa[len(pre) + 6:-1]:
+                        return True
     return False
 
 
@@ -355,7 +358,8 @@ def signatures(case, impl, model):
     names = [c.split(" ")[0] for c in cf[3 + k:3 + k + m]]
     reqs = fi[0].split(";"); sc = mf[3].split(",")
     s = set()
-    if nested_instance_sig(names, reqs, sc):
+    shared = shared_id_sig(cf, sc)
+    if nested_instance_sig(names, reqs, sc, any_pair=shared):
         s.add("nested-instance-not-united")
     if component_sig(names, reqs, sc):
         s.add("component-imports-united")
@@ -363,7 +367,7 @@ def signatures(case, impl, model):
         s.add("remapped-defined-onto-primitive-panic")
     if owner_sig(cf):
         s.add("owner-import-bypasses-canonical-name")
-    if shared_id_sig(cf, sc):
+    if shared:
         s.add("interface-id-under-two-import-names")
     return s
 
